@@ -93,6 +93,11 @@ def cases(tier, seed, i, n):
                                 # compressed connection; sends after close() are refused (and with 'every' there are plenty)
                                 yield dict(pre=pre, sc=sc, end=end, at=at, args=APP_CLOSE_ARGS[k % len(APP_CLOSE_ARGS)],
                                            sends=sends, ct=None, seg=('coalesced', 'perframe')[k % 2], z=True)
+                            if len(pre) <= 1 and at != 'never' and sends in ('every', 'none') and k % 4 == 2:
+                                # the application's close() is made while the same thread is in the middle of a send on
+                                # ANOTHER WebSocket of the process (a signal handler that shuts every connection down)
+                                yield dict(pre=pre, sc=sc, end=end, at=at, args=APP_CLOSE_ARGS[k % len(APP_CLOSE_ARGS)],
+                                           sends=sends, ct=None, seg='coalesced', via_other=True)
                             if len(pre) <= 1 and sends == 'none' and k % 8 == 1:
                                 yield dict(pre=pre, sc=sc, end=end, at=at, args=APP_CLOSE_ARGS[k % len(APP_CLOSE_ARGS)],
                                            sends=sends, ct=None, seg='coalesced', logship=True)
@@ -252,7 +257,39 @@ def run_case(case, acc):
             lg.setLevel(old_level)
         acc.count2('oracle', 'log_shipping_runs')
         return judge_logship(case, run, w, acc)
+    if case.get('via_other') and ws0 is None:
+        from .. import env, simnet
+        w2 = H.World(H.hs_server([]), split_send=True)
+        other = H.drive(w2, connect_kwargs=dict(ping_rate=0), stop_after=3, companion=False)
+        with simnet.Installed(w):
+            ws0 = env.WebSocket('ws://example.com/')
+        real_close = ws0.close
+
+        def close_inside_a_write_on_the_other_websocket(*a):
+            done = []
+
+            def hook(_tag):
+                if not done:
+                    done.append(1)
+                    real_close(*a)
+            w2.yield_hook = hook
+            try:
+                other.ws.send_binary(b'o' * 300)
+            finally:
+                w2.yield_hook = None
+            if not done:
+                real_close(*a)
+        ws0.close = close_inside_a_write_on_the_other_websocket
+        acc.count2('oracle', 'close_made_inside_a_write_on_another_websocket')
     run = H.drive(w, ws=ws0, ws_kwargs=dict(compress=True) if case.get('z') else None, connect_kwargs=ckw, policy=H.TablePolicy(table))
+    if case.get('via_other'):
+        first_close = [c for c in run.calls if c['name'] == 'close'][:1]
+        if first_close and not first_close[0]['ok'] and 'ready' in run.names[:first_close[0]['ev'] + 1] \
+                and not any(n in run.names[:first_close[0]['ev'] + 1] for n in ('closing', 'closed', 'disconnected', 'protocol_error')):
+            # connected, open, idle - and this thread's write in progress is on a different websocket
+            acc.violation('close-refused-on-an-open-idle-websocket:made-inside-a-write-on-another-websocket',
+                          'C08 close() raised %s' % first_close[0]['exc'], case, dict(events=run.names[-8:], call=first_close[0]['exc']))
+            return
     if case.get('slow'):
         acc.count2('oracle', 'slow_handler_runs')
     if case.get('cfault'):
